@@ -28,6 +28,7 @@ class Result:
         self.nontrivial = kw.get("nontrivial", False)
         self.i1, self.i2 = kw.get("i1"), kw.get("i2")
         self.oob = kw.get("oob")        # transformed program may go out of bounds
+        self.zero_trip_only = kw.get("zero_trip_only", False)
 
 
 def observable_keys(it):
@@ -130,6 +131,7 @@ def compare_interps(i1, i2, timeout_ms=20000, check_oob=False, extra_assumptions
     verdict = "unsat"
     model = None
     which = None
+    zto = False
     if reach == "unsat":
         return Result("vacuous", solver_s=time.time() - t0, reach=reach, i1=i1, i2=i2)
     unknown = reach == "unknown"
@@ -143,6 +145,12 @@ def compare_interps(i1, i2, timeout_ms=20000, check_oob=False, extra_assumptions
             # prefer a witness with small integral values (replayable in gfortran)
             model = _nice_model(s, i1) or s.model()
             verdict, which = "sat", desc
+            # classification: does the difference need some loop of the original to be zero-trip?
+            s.push()
+            for tg, trip in i1.trips:
+                s.add(z3.Implies(tg, trip >= 1))
+            zto = all(_unsat_with(s, d2, c2) for _, d2, c2 in diffs)
+            s.pop()
             s.pop()
             break
         if r == "unknown":
@@ -158,7 +166,17 @@ def compare_interps(i1, i2, timeout_ms=20000, check_oob=False, extra_assumptions
             oob = s.model()
         s.pop()
     return Result(verdict, model=model, diff=which, solver_s=time.time() - t0, reach=reach,
-                  nontrivial=nontrivial, i1=i1, i2=i2, oob=oob)
+                  nontrivial=nontrivial, i1=i1, i2=i2, oob=oob, zero_trip_only=zto)
+
+
+def _unsat_with(s, d, cons):
+    s.push()
+    for c in cons:
+        s.add(c)
+    s.add(d)
+    r = str(s.check())
+    s.pop()
+    return r == "unsat"
 
 
 def _nice_model(s, it, lim=6):
